@@ -25,6 +25,9 @@ def annotate(j, txt):
     t = j.get("thorough_only")
     if t:
         txt += f" — **thorough tier: {t['check']} caught** ({t.get('note', '')[:140]})"
+    bb = j.get("beyond_budget")
+    if bb:
+        txt += f" — **not caught**: {bb[:220]}"
     o = j.get("outside_statement")
     if o:
         txt += f" — **judged outside the statement**: {o[:220]}"
